@@ -60,6 +60,25 @@ def replay(ctx):
     return 1 if bad else 0
 
 
+def alloc_state_larger_than_layout(exe, img):
+    """compare the page count inside each allocator-state `region:<r>` entry (u32 at byte 4 of the serialized
+    buddy allocator) with the pages that region has in the layout"""
+    rc, out = vlib.sh([exe, "dump", img])
+    lay = re.search(r"^layout .*region_max_data_pages=(\d+) full_regions=(\d+) trailing_pages=(\d+)", out, re.M)
+    if not lay:
+        return None
+    maxp, full, trailing = int(lay.group(1)), int(lay.group(2)), int(lay.group(3))
+    res = {"larger": False, "regions": []}
+    for m in re.finditer(r"^alloc_state key=region:(\d+) len=\d+ bytes=([0-9a-f]+)", out, re.M):
+        r, b = int(m.group(1)), bytes.fromhex(m.group(2))
+        n = int.from_bytes(b[4:8], "little")
+        pages = maxp if r < full else (trailing if r == full else 0)
+        res["regions"].append({"region": r, "allocator_pages": n, "layout_pages": pages})
+        if n > pages:
+            res["larger"] = True
+    return res
+
+
 def run(ctx):
     if getattr(ctx, "replay", None):
         return replay(ctx)
@@ -109,7 +128,18 @@ def run(ctx):
                     counts[("fwd", "compact-integrity-false-as-in-3.0.0-own-files")] = counts.get(("fwd", "compact-integrity-false-as-in-3.0.0-own-files"), 0) + 1
                     continue
                 bad_total += 1
-                key = "c19-v3-integrity-false" if (direction == "fwd" and kv["integrity"] == "Ok(false)") else "c19-%s-integrity-%s" % (direction, ev)
+                key = "c19-%s-integrity-%s" % (direction, ev)
+                if direction == "fwd" and kv["integrity"] == "Ok(false)":
+                    # known finding F-C19-2 has a narrow signature: a CLEANLY CLOSED file whose allocator-state
+                    # table still serialises a region allocator larger than the region in the (shrunk) layout
+                    sig = alloc_state_larger_than_layout(exe, os.path.join(d, img))
+                    replay["allocator_state_vs_layout"] = sig
+                    if ev == "close" and sig and sig["larger"]:
+                        key = "c19-v3-integrity-false-after-clean-close"
+                    elif ev == "close":
+                        key = "c19-v3-integrity-false-close-other"
+                    else:
+                        key = "c19-v3-integrity-false-commit"
                 ctx.violation(key, "%s opens image %s (%s) with identical contents but its check_integrity() = %s" % (reader, img, ev, kv["integrity"]), replay)
     cov["readback"] = {"%s/%s" % k: v for k, v in sorted(counts.items())}
     cov["readback_bad"] = bad_total
